@@ -56,7 +56,7 @@ func c08World(t *testing.T, p c08Params) rt.Result {
 	hdr, _ := hex.DecodeString(p.Header)
 	faults := headerFaults(hdr)
 	r := rt.Get().Rand("c08w", int(p.Seed))
-	out := hz.Run(t, hz.Opts{Seed: p.Seed, HookMode: p.Hook, WriteYields: 3, EOFWithData: p.Seed%3 == 0}, func(w *hz.World) {
+	out := hz.Run(t, hz.Opts{Seed: p.Seed, HookMode: p.Hook, WriteYields: 3, EOFWithData: mix(p.Seed)%3 == 0}, func(w *hz.World) {
 		ps := hz.StdPeer("10.0.1.1")
 		ps.Passive = p.Dir == "in"
 		v := pickVariety(r, p.Dir)
@@ -135,7 +135,7 @@ func c08World(t *testing.T, p c08Params) rt.Result {
 		case stEstablished:
 			stream = append(stream, wire.Update(updBody(rc.ID, 9999))...)
 		}
-		closeAfter := p.Seed%3 == 0 && r.IntN(2) == 0
+		closeAfter := mix(p.Seed)%3 == 0 && r.IntN(2) == 0
 		if closeAfter {
 			stream = stream[:suffixAt] // the stream ends with the faulty message: its last bytes come with the EOF
 		}
